@@ -237,9 +237,22 @@ func init() {
 			Default: P(st.DefaultWeightedCloseStrategyMaPeriod),
 			// MA period 1 is avoided: the MA equals the weighted close up to
 			// rounding, so every position is exempt.
-			Rand: func(r *gen.Rand) Cfg { return P(r.Range(2, 12)) },
+			Rand: func(r *gen.Rand) Cfg {
+				c := P(r.Range(2, 12))
+				c.S = []string{"", "", "ema", "hma", "wma"}[r.Intn(5)] // the public Ma field takes any moving average
+				return c
+			},
 			New: func(c Cfg) strategy.Strategy {
-				return st.NewWeightedCloseStrategyWith(c.I[0])
+				x := st.NewWeightedCloseStrategyWith(c.I[0])
+				switch c.S {
+				case "ema":
+					x.Ma = trend.NewEmaWithPeriod[float64](c.I[0])
+				case "hma":
+					x.Ma = trend.NewHmaWithPeriod[float64](c.I[0] + 2)
+				case "wma":
+					x.Ma = trend.NewWmaWith[float64](c.I[0])
+				}
+				return x
 			},
 			Warm: func(s strategy.Strategy) int {
 				x := s.(*st.WeightedCloseStrategy)
